@@ -5,8 +5,8 @@ CONSTANTS
   TemplateHasQ = TRUE
   H = 2
   LensKind = "mixed"
-  WithScroll = FALSE
+  WithScroll = TRUE
   DelayedSetsVersion <- TreeDelayedSetsVersion
 SPECIFICATION Spec
-INVARIANTS TypeOK OneAlive ConvergenceLostCancel
+INVARIANTS TypeOK OneAlive ShownIsStarted Convergence ShowFixed DelayedFixed RowsOfOneRequest ExitClean
 CHECK_DEADLOCK FALSE
